@@ -16,6 +16,9 @@ META = {
 }
 
 
+from .coverage import coverage
+
+
 def run(ctx):
     F, P, R = ctx.F, ctx.P, ctx.run
     R.explanation = META['text']
@@ -147,3 +150,5 @@ def run(ctx):
         ir = P.root(P.operand(ss, st_['args'][1], at=sb))
         R.ob('C04.tracked', ('<BaseChannel as Sink>::start_send', 'writes the response it was given'), bool(ir) and all(r == ('param', ss.id, 2) and not norm_path(p) for r, p in ir),
              'the item written is the response passed in', [ss.loc(st_)])
+    # source coverage while blocked (E-SHAPE): known finding D5 for limiter chains
+    coverage(ctx, 'C04.cover', ('K', 'T'))
